@@ -541,7 +541,14 @@ def form_exts(c, exts):
         return exts
     out, kinds = [], set()
     for e in exts:
-        v, t = forms.scalar_int(frng, int(e), p=0.85)
+        # a dtype that also holds e + 1: ccube computes its working shape as e + 1 in the entry's own type and wraps at the
+        # dtype maximum (notes FORM FINDINGS 5: candidate finding, not generated)
+        cands = forms.int_dtypes_holding([int(e) + 1])
+        if frng.random() < 0.85 and cands:
+            d = frng.choice(cands)
+            v, t = numpy.dtype(d).type(int(e)), "numpy." + d
+        else:
+            v, t = int(e), "python-int"
         kinds.add("unsigned" if t.startswith("numpy.uint") else "signed" if t.startswith("numpy.") else "python")
         out.append(v)
     for k in kinds - {"python"}:
